@@ -20,20 +20,44 @@ def _setup(chk, model):
     chk.used(fi.qualname)
     ev = SymEval(model)
     r = ev.run_function(fi)
-    for n in ("step", "_scan_body_seq", "episode"):
-        if r.env.get(model.local_name(f"artificial._generate_graphs.{n}"), T.NONE)[0] != "closure":
+    for n in ("_scan_body_seq", "episode"):
+        c = ev.callable_of(r, f"artificial._generate_graphs.{n}")
+        if c is None or c[0] not in ("closure", "sym"):
             raise AnalysisError(f"closure {n} not found in _generate_graphs")
     return ev, r
+
+
+def _episode(ev, r):
+    """Events of one evaluation of the per-episode generator on symbolic (rng_eps, _graphs, _ts_max)."""
+    n0 = len(ev.events)
+    ev.invoke(ev.callable_of(r, "artificial._generate_graphs.episode"), [S("rng_eps"), S("_graphs"), S("_ts_max")], r.frame)
+    return ev.events[n0:]
 
 
 def rule_scan(chk: Check, model, rule, ev=None, r=None):
     """Per-node timestamp scan of the graph generator (shared with C04: the same start-time law)."""
     if ev is None:
         ev, r = _setup(chk, model)
-    f_step = model.func("artificial._generate_graphs.step")
+    f_gen = model.func("artificial._generate_graphs")
     # ---------------------------------------------------------------- step
+    # taken from its use: the function handed to the lax.scan whose result becomes a node's vertex set, with whatever it was
+    # bound to there (the node's name, or the node's rate and delay directly); NAME = the key the result is stored under
+    sub = _episode(ev, r)
+    scans = [e for e in sub if e.kind == "call" and e.name == "jax.lax.scan" and e.args and e.args[0][0] == "closure"]
+    vst = [(e, sc) for e in sub if e.kind == "store_sub" for sc in scans if e.term == T.mk_index(sc.term, T.ONE)]
+    if len(vst) != 1:
+        chk.unknown(rule, "step", f"expected one lax.scan whose result is stored as a node's vertex set, found {len(vst)}", chk.loc(f_gen))
+        return
+    step_c = vst[0][1].args[0]
+    cl = ev.closures.get(step_c[1])
+    inner = cl.inner if cl is not None and cl.kind == "partial" else step_c
+    iq = ev.closures[inner[1]].qualname if inner[0] == "closure" and inner[1] in ev.closures else (inner[1][4:] if inner[0] == "sym" and inner[1].startswith("rex.") else None)
+    f_step = model.functions.get(iq) or f_gen
+    chk.used(f_step.qualname)
+    vst = [vst[0][0]]
+    NAME, TSMAX = vst[0].key, S("_ts_max")
     carry = ("tuple", (S("ts_prev"), S("rng_prev")))
-    out = ev.invoke(r.env[model.local_name("artificial._generate_graphs.step")], [], r.frame, kwargs=[("name", S("name")), ("_generate_graphs__ts_max" if False else "__ts_max", S("TSMAX")), ("carry", carry), ("i", S("i"))])
+    out = ev.invoke(step_c, [carry, S("i")], r.frame)
     ok = out[0] == "tuple" and len(out[1]) == 2 and out[1][0][0] == "tuple" and out[1][1][0] == "obj" and out[1][1][1] == "Vertex"
     if not ok:
         chk.unknown(rule, "step", f"step returns {T.show(out)[:200]}", chk.loc(f_step))
@@ -47,13 +71,13 @@ def rule_scan(chk: Check, model, rule, ev=None, r=None):
                 f"Vertex.ts_end = {T.show(vertex.get('ts_end', T.NONE))[:160]}", chk.loc(f_step))
         if d is not None:
             recv = d[1][1][1] if isinstance(d[1][1], tuple) and d[1][1][0] == "attr" else None  # receiver of .sample
-            ok = recv is not None and recv[0] == "replace" and dict(recv[2]).get("rng") == T.mk_index(split, T.ZERO) and mentions(recv[1], "delay_dist") and mentions(recv[1], "name")
+            ok = recv is not None and recv[0] == "replace" and dict(recv[2]).get("rng") == T.mk_index(split, T.ZERO) and mentions(recv[1], "delay_dist") and NAME in set(T.walk(recv[1]))
             chk.add(rule, "delay sampled from the node's own distribution with a fresh key", bool(ok), f"the sample is drawn from {T.show(recv)[:160] if recv else None}, expected computation_delays[name].replace(rng=split[0])", chk.loc(f_step))
             chk.add(rule, "rng chain is linear", rng_next == T.mk_index(split, T.ONE), f"next carry rng = {T.show(rng_next)[:100]}, expected the other half of split(rng_prev, 2)", chk.loc(f_step))
-            rate = T.mk_attr(T.mk_index(S("nodes"), S("name")), "rate")
+            rate = T.mk_attr(T.mk_index(S("nodes"), NAME), "rate")
             want = T.mk_max([T.add(S("ts_prev"), d), T.add(S("ts_prev"), T.div(T.ONE, rate))])
             chk.add(rule, "ts_next = max(ts_end, ts_start + 1/rate)", ts_next == want, f"next start = {T.show(ts_next)[:200]}, expected max(ts_end, ts_prev + 1 / rate)", chk.loc(f_step))
-            want_seq = T.mk_ite(T.lt(S("TSMAX"), T.add(S("ts_prev"), d)), T.const(-1), S("i"))
+            want_seq = T.mk_ite(T.lt(TSMAX, T.add(S("ts_prev"), d)), T.const(-1), S("i"))
             chk.add(rule, "seq = -1 iff ts_end > horizon", vertex.get("seq") == want_seq, f"Vertex.seq = {T.show(vertex.get('seq', T.NONE))[:160]}, expected where(ts_end > ts_max, -1, i)", chk.loc(f_step))
 
 
@@ -72,7 +96,7 @@ def run(chk: Check, model):
     # ---------------------------------------------------------------- tie rule
     f_sb = model.func("artificial._generate_graphs._scan_body_seq")
     n0 = len(ev.events)
-    out = ev.invoke(r.env[model.local_name("artificial._generate_graphs._scan_body_seq")], [S("skip"), S("ts_start"), S("seq"), S("ts_recv")], r.frame)
+    out = ev.invoke(ev.callable_of(r, "artificial._generate_graphs._scan_body_seq"), [S("skip"), S("ts_start"), S("seq"), S("ts_recv")], r.frame)
     wl = [e for e in ev.events[n0:] if e.kind == "call" and e.name == "jax.lax.while_loop"]
     if len(wl) != 1 or out[0] != "tuple":
         chk.unknown("C12.tie", "search loop", "expected one lax.while_loop in _scan_body_seq", chk.loc(f_sb))
@@ -120,9 +144,7 @@ def run(chk: Check, model):
                 "stopped at a tied step must not be rejected by a different predicate", chk.loc(f_sb))
     # ---------------------------------------------------------------- episode: augment, masks, rejects
     f_ep = model.func("artificial._generate_graphs.episode")
-    n0 = len(ev.events)
-    ev.invoke(r.env[model.local_name("artificial._generate_graphs.episode")], [S("rng_eps"), S("_graphs"), S("_ts_max")], r.frame)
-    sub = [e for e in ev.events[n0:]]
+    sub = _episode(ev, r)
     # the two local tables of an episode are recognised by what is stored: vertex sets come out of a scan, edges are Edge objects
     loc_st = [e for e in sub if e.kind == "store_sub" and e.func == f_ep.qualname and not e.name.startswith("self.")]
     vst = [e for e in loc_st if e.term[0] == "index" and e.term[1][0] == "call" and T.call_name(e.term[1]) == "jax.lax.scan"]
@@ -177,8 +199,8 @@ def run(chk: Check, model):
             ok = init[0] == "tuple" and len(init[1]) == 2 and T.call_name(init[1][0][1]).endswith(".sample") if init[0] == "tuple" and init[1][0][0] == "index" else False
             ph = [x for x in T.walk(init) if x[0] == "call" and T.call_name(x) == "distrax.Deterministic"]
             ok = ok and len(ph) >= 1 and all(dict(x[3]).get("loc") is not None and dict(x[3])["loc"][0] == "attr" and dict(x[3])["loc"][2] == "phase" for x in ph)
-            cl = ev.closures.get(sc.args[0][1]) if sc.args[0][0] == "closure" else None
-            ok = ok and cl is not None and cl.kind == "partial" and cl.inner == r.env[model.local_name("artificial._generate_graphs.step")] and len(cl.bound_args) == 2 and cl.bound_args[0] == vst[0].key and cl.bound_args[1] == S("_ts_max")
+            # (what the scanned function is bound to - the node stored under this key, the episode's horizon - is checked on the
+            # function as bound at this very call: rule_scan)
         chk.add("C12.scan", "first start = the node's phase; scanned with step(name, horizon)", bool(ok), "vertices[n] must be scan(partial(step, n, _ts_max), (phase sample, rng), arange(num_steps))[1] "
                 "with the phase distribution Deterministic(loc=node.phase)", chk.loc(f_ep))
     # edge construction
@@ -189,7 +211,8 @@ def run(chk: Check, model):
             chk.unknown("C12.mask", "Edge", f"edges[...] = {T.show(e.term)[:120]}", chk.loc(f_ep, e.node))
         else:
             key = e.key
-            o, i_ = key[1]
+            # the (sender, receiver) key, spelled as a pair or kept whole (then its two components are key[0], key[1])
+            o, i_ = key[1] if key[0] == "tuple" and len(key[1]) == 2 else (T.mk_index(key, T.ZERO), T.mk_index(key, T.ONE))
             vo = T.mk_index(_vert(sub, f_ep), o)
             seq0 = [x for x in T.walk(ed["seq_out"]) if x[0] == "attr" and x[2] == "seq"]
             so0 = seq0[0] if seq0 else None
@@ -212,7 +235,7 @@ def run(chk: Check, model):
                     # scan inputs: skip flag of this connection, receiver start times, arrival times
                     cl = ev.closures.get(sc2[0].args[0][1]) if sc2[0].args[0][0] == "closure" else None
                     conn = None
-                    okc = cl is not None and cl.kind == "partial" and cl.inner == r.env[model.local_name("artificial._generate_graphs._scan_body_seq")] and len(cl.bound_args) == 2
+                    okc = cl is not None and cl.kind == "partial" and cl.inner == ev.callable_of(r, "artificial._generate_graphs._scan_body_seq") and len(cl.bound_args) == 2
                     if okc:
                         skipt, tst = cl.bound_args
                         okc = skipt[0] == "attr" and skipt[2] == "skip" and tst[0] == "attr" and tst[2] == "ts_start" and tst[1][0] == "index" and tst[1][2] == i_
